@@ -78,6 +78,44 @@ Example nometa_example :
   r_open_nometa w_ex DBin 12 = None /\ r_open_nometa w_ex DCbin 12 = Some 12.
 Proof. vm_compute. auto. Qed.
 
+(* File names (character level; with_suffix models pathlib: the suffix starts at
+   the last '.', provided it is neither the first nor the last character).
+   For a source file named stem.e (stem, e non-empty, no '.' in e) and
+   WHATEVER characters the stem contains — other dots, "_tmp", ".cbin_tmp",
+   "bin", "meta", ... — the temporaries are stem.cbin_tmp / stem.ch_tmp, the
+   published files are stem.cbin / stem.ch, and these are exactly the names
+   the reader looks up: x.meta -> with_suffix cbin, x.cbin -> with_suffix ch,
+   and the decompressed output of the published .cbin is stem.bin again.     *)
+Theorem C02_published_names_are_looked_up :
+  forall stem e t1 t2 xcbin xch xmeta xbin,
+  stem <> [] -> e <> [] -> ~ In dot e ->
+  t1 <> [] -> ~ In dot t1 -> xcbin <> [] -> ~ In dot xcbin -> xmeta <> [] -> ~ In dot xmeta ->
+  let x := stem ++ dot :: e in
+  let '(tmp_cbin, tmp_ch, pub_cbin, pub_ch) := published_names x t1 t2 xcbin xch in
+  tmp_cbin = stem ++ dot :: t1 /\ tmp_ch = stem ++ dot :: t2 /\
+  pub_cbin = stem ++ dot :: xcbin /\ pub_ch = stem ++ dot :: xch /\
+  with_suffix (stem ++ dot :: xmeta) xcbin = pub_cbin /\       (* Reader(x.meta) looks for this *)
+  with_suffix pub_cbin xch = pub_ch /\                          (* open() of the .cbin looks for this *)
+  with_suffix pub_cbin xbin = stem ++ dot :: xbin /\            (* decompress_file's default output *)
+  with_suffix pub_cbin xmeta = stem ++ dot :: xmeta.            (* the .meta companion *)
+Proof.
+  intros stem e t1 t2 xcbin xch xmeta xbin Hs He Hn Ht Hnt Hc Hnc Hm Hnm x.
+  unfold x. rewrite (published_names_spec stem e t1 t2 xcbin xch Hs He Hn Ht Hnt).
+  rewrite (with_suffix_app stem xmeta xcbin Hs Hm Hnm).
+  rewrite !(with_suffix_app stem xcbin) by assumption.
+  repeat split; reflexivity.
+Qed.
+Print Assumptions C02_published_names_are_looked_up.
+
+(* probe_tmp_test.cbin_tmp.imec0.ap.bin -> probe_tmp_test.cbin_tmp.imec0.ap.cbin / .ch *)
+Example published_names_example :
+  let s := [112;114;111;98;101;95;116;109;112;95;116;101;115;116;46;99;98;105;110;95;116;109;112;46;105;109;101;99;48;46;97;112] in
+  published_names (s ++ [46; 98; 105; 110]) [99;98;105;110;95;116;109;112] [99;104;95;116;109;112] [99;98;105;110] [99;104]
+  = (s ++ [46;99;98;105;110;95;116;109;112], s ++ [46;99;104;95;116;109;112], s ++ [46;99;98;105;110], s ++ [46;99;104]) /\
+  with_suffix [46;104;105;100] [99;104] = [46;104;105;100;46;99;104] /\      (* ".hid" has no suffix *)
+  with_suffix [97;46] [99;104] = [97;46;46;99;104].                          (* "a." neither *)
+Proof. vm_compute. auto. Qed.
+
 (* ---------------------------------------------------------------------- *)
 (* compress_file (tree at 746882f: stream -> x.cbin_tmp, header -> x.ch_tmp,
    then rename header, rename stream, unlink source).  Source x.bin complete;
